@@ -59,7 +59,7 @@ def rref(rng, w):         # the prefix is case-insensitive, the suffix is kept
     return rcase(rng, w[:11]) + w[11:]
 
 
-def simple(rng, valid_p=0.93):
+def simple(rng, valid_p=0.975):
     lic, exc = tables()
     k = rng.random()
     if k > valid_p: t = rng.choice(BAD_IDS)
@@ -68,7 +68,7 @@ def simple(rng, valid_p=0.93):
     else: t = rcase(rng, rng.choice(lic))
     if rng.random() < 0.2: t += "+"
     if rng.random() < 0.25:
-        e = rng.choice(exc) if rng.random() < 0.93 else rng.choice(["bogus-exc", "mit", "389-exception+", "LicenseRef-x"])
+        e = rng.choice(exc) if rng.random() < 0.96 else rng.choice(["bogus-exc", "mit", "389-exception+", "LicenseRef-x"])
         t += rng.choice(WS_IN) + rcase(rng, "WITH") + rng.choice(WS_IN) + rcase(rng, e)
     return t
 
@@ -142,6 +142,20 @@ FIXED = ["", " ", "\n", "()", "( )", "(", ")", "MIT", "mit", " MIT ", "(MIT)", "
          "(MIT\n)", "(\nMIT)", "MIT\tOR\tgd", "  (  MIT  )  ", "(((((((((((MIT)))))))))))", "MIT OR (gd AND (isc OR (sl AND (w3c))))"]
 
 
+def count_guard_passing(n):
+    """Number of skeletons of length <= n over False/or/and/(/) that pass the two guards of the first loop."""
+    tot, st = 1, {None: 1}
+    for _ in range(n):
+        new = {}
+        for last, k in st.items():
+            for t in "Foa()":
+                if t == "(" and last is not None and last not in "oa(": continue
+                if t == ")" and last == "(": continue
+                new[t] = new.get(t, 0) + k
+        st = new; tot += sum(st.values())
+    return tot
+
+
 def sweep_cases(stream, joiner, words, total_len, prefix_len, mode):
     """Every sequence over `words` of length 0..total_len, in chunks by prefix."""
     out = [Case(stream, "l.sweep", [mode, joiner, str(min(prefix_len - 1, total_len)), ""] + words)]
@@ -166,8 +180,8 @@ def streams(rng, tier):
     for _ in range(4000 if q else 100000):
         s = expr(rng, 0, rng.choice([1, 2, 3, 3, 4]))
         k = rng.random()
-        if k < 0.25: s = damage(rng, s)
-        elif k < 0.35: s = mutate(rng, s)
+        if k < 0.15: s = damage(rng, s)
+        elif k < 0.22: s = mutate(rng, s)
         out.append(Case("grammar", "l.canon", [s]))
         if rng.random() < 0.5: out.append(Case("law-spec", "law.l.spec", [s], kind="law"))
         if rng.random() < 0.25: out.append(Case("law-layout", "law.l.layout", [str(rng.randrange(10 ** 6)), s], kind="law"))
@@ -187,9 +201,10 @@ def streams(rng, tier):
     n5, n7, nc, ne = (7, 5, 5, 7) if q else (10, 7, 7, 9)
     # the eval() component alone against the automaton LicModel.py_eval: every skeleton the first loop can produce, up to length ne
     import itertools
-    out.append(Case("eval-exhaustive:all-guard-passing-skeletons-len<=%d" % ne, "l.evalsweep", ["1", ""]))
+    ename = "eval-exhaustive:all-guard-passing-skeletons-len<=%d(%d)" % (ne, count_guard_passing(ne))
+    out.append(Case(ename, "l.evalsweep", ["1", ""]))
     for pfx in itertools.product("01234", repeat=2):
-        out.append(Case("eval-exhaustive:all-guard-passing-skeletons-len<=%d" % ne, "l.evalsweep", [str(ne - 2), "".join(pfx)]))
+        out.append(Case(ename, "l.evalsweep", [str(ne - 2), "".join(pfx)]))
     out += sweep_cases("sweep5:all-token-seqs-len<=%d(%d)" % (n5, sum(5 ** i for i in range(n5 + 1))), " ", W5, n5, 2 if q else 3, "b")
     out += sweep_cases("sweep7:all-token-seqs-len<=%d(%d)" % (n7, sum(7 ** i for i in range(n7 + 1))), " ", W7, n7, 2, "o")
     CH = ["g", "D", "+", "(", ")", " ", "o", "R", "\n"]
